@@ -347,6 +347,34 @@ func ruleR02b(c *Check) {
 	restores := callsToFn(c, g.Fn, lo)
 	execs := callsToFn(c, g.Fn, ex.ExecMethod)
 	gname := c.P.FuncName(g.Fn)
+	if len(restores) == 0 && len(execs) > 0 {
+		// the restore inside a bool helper ("the hit was handled"): a failed restore makes the helper answer
+		// false, and after a true answer the gate cannot reach the executing method
+		done := false
+		for _, hs := range gateHelpersCalling(c, g.Fn, lo) {
+			res := hs.Helper.Signature.Results()
+			if res.Len() != 1 || res.At(0).Type().String() != "bool" {
+				continue
+			}
+			done = true
+			bad := ""
+			for _, r := range callsToFn(c, hs.Helper, lo) {
+				if reach, _ := engine.PathExists(hs.Helper, r, mayBeTrueReturn, engine.PathQuery{CutEdge: engine.NilErrEdgesOf(r)}); reach {
+					bad = "the helper " + c.P.FuncName(hs.Helper) + " can answer 'handled' although the restore returned an error"
+				}
+			}
+			v := ssa.Value(hs.Call)
+			for _, e := range execs {
+				if reach, _ := engine.PathExists(g.Fn, hs.Call, engine.IsInstr(e), engine.PathQuery{CutEdge: engine.CutEdgesWhere(func(a engine.Atom) bool { return a.Op == "false" && a.V == v })}); reach {
+					bad = "a target whose outputs were restored successfully can still be executed"
+				}
+			}
+			c.Require(bad == "", "R02b", "no-execution-after-restore/"+gname, "after the hit helper answered true (restore returned nil) the gate cannot reach the executing method", bad, c.P.InstrPos(hs.Call))
+		}
+		if done {
+			return
+		}
+	}
 	if len(restores) == 0 || len(execs) == 0 {
 		c.Unknown("R02b", "no-execution-after-restore/"+gname, "restore or execute call not found in the gate", "-")
 		return
@@ -697,6 +725,33 @@ func dirEnsured(c *Check, fn *ssa.Function, d dirExpr, at ssa.Instruction, depth
 			}
 		}
 	}
+	// same function: a helper that (re)creates the directory it is given — it calls MkdirAll on that parameter
+	// and cannot return nil without that call having succeeded — must have succeeded before `at`
+	if d.Dir != nil {
+		for _, hs := range engine.SitesIn(fn) {
+			call, isCall := hs.(*ssa.Call)
+			if !isCall || engine.ErrResultIndex(call.Call.Signature()) < 0 {
+				continue
+			}
+			h := call.Call.StaticCallee()
+			if h == nil || len(h.Blocks) == 0 || h.Pkg == nil || !engine.IsFirstParty(h.Pkg.Pkg.Path()) {
+				continue
+			}
+			for i, a := range call.Call.Args {
+				if i >= len(h.Params) || !(sameVar(a, d.Dir) || engine.ExprKey(a) == engine.ExprKey(d.Dir)) {
+					continue
+				}
+				if !helperEnsuresDir(h, h.Params[i]) {
+					continue
+				}
+				if ci, ok := at.(ssa.CallInstruction); ok {
+					if w := onlyAfterSuccess(fn, hs, ci); w == "" {
+						return true, "MkdirAll in " + c.P.FuncName(h) + ", called from " + c.P.FuncName(fn)
+					}
+				}
+			}
+		}
+	}
 	// the directory is read from a field of a work-list frame: every value stored into that field is ensured
 	if d.Dir != nil {
 		if ok, why, handled := dirFieldEnsured(c, fn, d.Dir, depth); handled {
@@ -836,6 +891,24 @@ func dirIsEnsuredValue(c *Check, fn *ssa.Function, v ssa.Value, at ssa.CallInstr
 		if sameVar(x, v) || engine.ExprKey(x) == engine.ExprKey(v) {
 			if w := onlyAfterSuccess(fn, m, at); w == "" {
 				return true, ""
+			}
+		}
+	}
+	// ... or a helper that (re)creates the directory it is given, which returned nil before `at`
+	for _, hs := range engine.SitesIn(fn) {
+		call, isCall := hs.(*ssa.Call)
+		if !isCall || engine.ErrResultIndex(call.Call.Signature()) < 0 {
+			continue
+		}
+		h := call.Call.StaticCallee()
+		if h == nil || len(h.Blocks) == 0 || h.Pkg == nil || !engine.IsFirstParty(h.Pkg.Pkg.Path()) {
+			continue
+		}
+		for i, a := range call.Call.Args {
+			if i < len(h.Params) && (sameVar(a, v) || engine.ExprKey(a) == engine.ExprKey(v)) && helperEnsuresDir(h, h.Params[i]) {
+				if w := onlyAfterSuccess(fn, hs, at); w == "" {
+					return true, ""
+				}
 			}
 		}
 	}
@@ -993,4 +1066,37 @@ func ruleR02m(c *Check) {
 		reach, _ := engine.PathExists(ex.Complete, nil, engine.IsInstr(w), engine.PathQuery{CutEdge: enabled, Shallow: true})
 		c.Require(!reach, "R02m", "no-result-write-when-disabled/"+c.P.FuncName(ex.Complete), "the result is written only past the branch on which caching is enabled", "the target result is also written when caching is disabled: the record of such a build lists no outputs and replaces the complete one stored earlier under the same change hash, so the next ordinary build executes the target again although nothing changed (and, with a shared remote cache, so does everybody else)", c.P.InstrPos(w))
 	}
+}
+
+// helperEnsuresDir: h calls os.MkdirAll on its parameter p and every nil-error return of h lies behind the
+// err == nil branch of such a call.
+func helperEnsuresDir(h *ssa.Function, p *ssa.Parameter) bool {
+	var mks []ssa.CallInstruction
+	for _, m := range callsNamed(h, "os.MkdirAll") {
+		for _, o := range engine.Origins(m.Common().Args[0]) {
+			if o == ssa.Value(p) {
+				mks = append(mks, m)
+			}
+		}
+	}
+	if len(mks) == 0 {
+		return false
+	}
+	isMk := func(in ssa.Instruction) bool {
+		for _, m := range mks {
+			if in == ssa.Instruction(m) {
+				return true
+			}
+		}
+		return false
+	}
+	if ok, _ := engine.PathExists(h, nil, successReturn, engine.PathQuery{CutInstr: isMk, Shallow: true}); ok {
+		return false
+	}
+	for _, m := range mks {
+		if ok, _ := engine.PathExists(h, m, successReturn, engine.PathQuery{CutEdge: engine.NilErrEdgesOf(m), CutInstr: isMk, Shallow: true}); ok {
+			return false
+		}
+	}
+	return true
 }
